@@ -12,15 +12,22 @@
 (* and PlugAllowed / WiringOk below.                                       *)
 (*                                                                         *)
 (* Code-shaped layer: ImplPlug transcribes the loop of plug.rs (per plug,  *)
-(* per export: exact-name import first, else the first semver-compatible   *)
-(* import; type filter; one instantiation per contributing plug;           *)
-(* ArgumentAlreadyPassed from the graph when an import is supplied twice). *)
+(* per export: the socket imports it is wired to; type filter; one         *)
+(* instantiation per contributing plug; ArgumentAlreadyPassed from the     *)
+(* graph when an import is supplied twice).  Named deviation:              *)
+(*   DEV_FirstOnTrack  (the loop as found) an export is tried against ONE  *)
+(*                     import only: the import of its own name if the      *)
+(*                     socket has one -- whatever its type --, else the    *)
+(*                     first import on its semver track.  A socket with    *)
+(*                     two imports on one track then keeps an import a     *)
+(*                     plug could supply, or reports NoPlugHappened.       *)
 (* TLC checks ImplConforms for every socket and every ordered list of      *)
-(* distinct plugs within the bound.                                        *)
+(* distinct plugs within the bound, and the interface of the result        *)
+(* (SocketImportsKept; SuccessEncodes is refuted: KF27).                   *)
 (***************************************************************************)
 EXTENDS Naturals, Sequences, FiniteSets, TLC, Json, Types, Names, Libs
 
-CONSTANTS MaxPlugs
+CONSTANTS MaxPlugs, DEV_FirstOnTrack
 
 L == LibTable["plug"]
 Sockets == L.Sockets
@@ -78,20 +85,33 @@ WiringOk(ps, sock, w) ==
 (***************************************************************************)
 (* The loop of plug.rs.                                                    *)
 (***************************************************************************)
-\* matching socket import for export e of a plug: exact name first, else the first compatible import
+\* as found (DEV_FirstOnTrack): the ONE socket import tried for export e of a plug -- the import of that
+\* name if the socket has one (whatever its type), else the first compatible-named import in import order
 MatchImport(sock, e) ==
   IF e \in SeqNames(Imports(sock)) THEN e
   ELSE LET I == {i \in DOMAIN Imports(sock) : Compat(e, Imports(sock)[i].n)}
        IN IF I = {} THEN "-" ELSE Imports(sock)[CHOOSE i \in I : \A j \in I : i <= j].n
+
+\* the socket imports export e of plug p is wired to, in import order.  Repaired loop: the import of the
+\* export's own name if the export satisfies it (and then only that one); failing that, every import with a
+\* semver-compatible name it satisfies and the plug has no type-compatible export of that import's own name for
+\* (that is: every other import e is a chosen source of)
+TargetsOf(p, sock, e) ==
+  IF DEV_FirstOnTrack
+  THEN LET s == MatchImport(sock, e.n)
+       IN IF s # "-" /\ Sub(e.k, KindOf(Imports(sock), s)) THEN <<s>> ELSE <<>>
+  ELSE IF e.n \in SeqNames(Imports(sock)) /\ Sub(e.k, KindOf(Imports(sock), e.n)) THEN <<e.n>>
+  ELSE LET names == [i \in DOMAIN Imports(sock) |-> Imports(sock)[i].n]
+           Hit(s) == s # e.n /\ e.n \in Chosen(p, sock, s)
+       IN SelectSeq(names, Hit)
 
 \* the (export, import) pairs plug p contributes, in export order
 RECURSIVE PairsFrom(_, _, _)
 PairsFrom(p, sock, i) ==
   IF i > Len(Exports(p)) THEN <<>>
   ELSE LET e == Exports(p)[i]
-           s == MatchImport(sock, e.n)
-       IN (IF s # "-" /\ Sub(e.k, KindOf(Imports(sock), s)) THEN <<[exp |-> e.n, imp |-> s]>> ELSE <<>>)
-          \o PairsFrom(p, sock, i + 1)
+           t == TargetsOf(p, sock, e)
+       IN [j \in DOMAIN t |-> [exp |-> e.n, imp |-> t[j]]] \o PairsFrom(p, sock, i + 1)
 
 \* fold over the plug list; acc = [w |-> wiring so far, err |-> BOOLEAN]
 RECURSIVE ApplyPairs(_, _, _, _)
@@ -120,6 +140,34 @@ ImplConformsFor(plugs, sock) ==
      /\ r.res = "ok" => WiringOk(Range(plugs), sock, r.w)
 
 (***************************************************************************)
+(* The interface of the result of a successful plug with wiring w.         *)
+(* What is left to import: the socket's imports nothing was supplied for   *)
+(* and the imports of the contributing plugs (plug() wires nothing into a  *)
+(* plug).  Left imports on one semver track merge into one import under    *)
+(* the highest version (C03/C09); two that cannot be merged make encode    *)
+(* fail although plug() succeeded (KF27).                                  *)
+(***************************************************************************)
+Left(sock, w) ==
+  {i \in Range(Imports(sock)) : i.n \notin {x.imp : x \in w}}
+    \cup UNION {Range(Imports(p)) : p \in {x.plug : x \in w}}
+TrackKey(n) == IF HasTrack(Info(n)) THEN TrackOf(Info(n)) ELSE <<n>>
+TopName(S) == CHOOSE n \in S : \A m \in S : m = n \/ VerLess(Info(m).ver, Info(n).ver)
+ResultImports(sock, w) ==
+  {TopName({i.n : i \in {j \in Left(sock, w) : TrackKey(j.n) = k}}) : k \in {TrackKey(i.n) : i \in Left(sock, w)}}
+ImportConflict(sock, w) ==
+  \E i, j \in Left(sock, w) : TrackKey(i.n) = TrackKey(j.n) /\ ~Mergeable(i.k, j.k)
+\* "a successful plug always encodes to a valid component"
+SuccessEncodesFor(plugs, sock) ==
+  LET r == ImplPlug(plugs, sock) IN r.res = "ok" => ~ImportConflict(sock, r.w)
+\* every socket import is supplied or still imported (under the canonical name of its track)
+SocketImportsKeptFor(plugs, sock) ==
+  LET r == ImplPlug(plugs, sock)
+  IN r.res = "ok" /\ ~ImportConflict(sock, r.w) =>
+       \A s \in SeqNames(Imports(sock)) :
+         \/ \E x \in r.w : x.imp = s
+         \/ \E n \in ResultImports(sock, r.w) : TrackKey(n) = TrackKey(s)
+
+(***************************************************************************)
 (* Enumeration: every socket and ordered list of distinct plugs.           *)
 (***************************************************************************)
 RECURSIVE Lists(_)
@@ -136,14 +184,31 @@ Next == UNCHANGED vars
 Spec == Init /\ [][Next]_vars
 
 ImplConforms == ImplConformsFor(plugs, sock)
+SuccessEncodes == SuccessEncodesFor(plugs, sock)
+SocketImportsKept == SocketImportsKeptFor(plugs, sock)
+
+\* names of the case, by track and by rank within the track; pairs of imports that cannot be merged
+CaseImports == UNION {{[p |-> q, n |-> i.n, k |-> i.k] : i \in Range(Imports(q))} : q \in Range(plugs) \cup {sock}}
+Rank(n) == Cardinality({m \in {i.n : i \in CaseImports} : m # n /\ TrackKey(m) = TrackKey(n) /\ VerLess(Info(m).ver, Info(n).ver)})
+Clashes == {[a |-> [p |-> x[1].p, n |-> x[1].n], b |-> [p |-> x[2].p, n |-> x[2].n]] :
+              x \in {y \in CaseImports \X CaseImports : TrackKey(y[1].n) = TrackKey(y[2].n) /\ ~Mergeable(y[1].k, y[2].k)}}
 
 \* one REPLAY line per case: what the contract allows, for the harness to compare the real plug() with
 EmitReplay ==
-  PrintT(<<"REPLAY", ToJson(
+  LET r == ImplPlug(plugs, sock)
+  IN PrintT(<<"REPLAY", ToJson(
      [sock |-> sock, plugs |-> plugs,
       allowed |-> PlugAllowed(Range(plugs), sock),
       must |-> MustSupply(Range(plugs), sock),
       sources |-> {[imp |-> s, plug |-> p, exps |-> Chosen(p, sock, s)]
                      : s \in SeqNames(Imports(sock)), p \in Range(plugs)},
-      exports |-> SeqNames(Exports(sock))])>>)
+      exports |-> SeqNames(Exports(sock)),
+      \* the Impl layer's own answer (the harness compares when the real wiring is the same)
+      impl |-> [res |-> r.res, w |-> r.w,
+                imports |-> IF r.res = "ok" /\ ~ImportConflict(sock, r.w) THEN ResultImports(sock, r.w) ELSE {},
+                conflict |-> r.res = "ok" /\ ImportConflict(sock, r.w)],
+      \* for any other allowed wiring: track and rank of every import name of the case, unmergeable pairs
+      tracks |-> [n \in {i.n : i \in CaseImports} |-> [key |-> ToString(TrackKey(n)), rank |-> Rank(n)]],
+      clashes |-> Clashes,
+      kf |-> IF r.res = "ok" /\ ImportConflict(sock, r.w) THEN "plug-import-conflict" ELSE ""])>>)
 ====
